@@ -119,13 +119,14 @@ package roaring
 // add / remove: the dispatchers inherit the kernel contracts: exactly v changes,
 // the `changed` result is exact and n moves by exactly one when it is true.
 //@ contract (*Container).add props C01,C02,C03
-//@   requires c == nil || (wfMut(c) && c.n < 65536)
+//@   requires c == nil || wfMut(c)
 //@   ensures newC != nil && mem(newC, v)
 //@   ensures added <==> !old(mem(c, v))
 //@   ensures c != nil ==> newC.n == old(c.n) + (added ? 1 : 0)
 //@   ensures c == nil ==> newC.n == 1
 //@   ensures !added ==> newC == c
-//@   ensures forall x :: 0 <= x && x < 65536 && x != v ==> (mem(newC, x) <==> old(mem(c, x)))
+//@   ensures forall x :: 0 <= x && x < 65536 && old(mem(c, x)) ==> mem(newC, x)
+//@   ensures forall x :: 0 <= x && x < 65536 && mem(newC, x) ==> (x == v || old(mem(c, x)))
 //@   ensures c != nil && (old(c.flags) & 2) != 0 && added ==> fresh(newC)
 
 //@ contract (*Container).remove props C01,C02,C03
